@@ -159,7 +159,17 @@ def run_case(case):
     from pytableaux.proof.rules import ClosingRule
     K = Tableau.StatKey
     arg = argument_of(case['arg'])
-    tab = Tableau(None, None, **case.get('opts', {}))
+    opts = dict(case.get('opts', {}))
+    if case.get('fake_timeout'):
+        # a deterministic clock (1 ms per reading) and a time limit that runs out after a few steps
+        from pytableaux.tools import timing
+        clock = [0.0]
+        def fake_time():
+            clock[0] += 0.001
+            return clock[0]
+        timing._time = fake_time
+        opts['build_timeout'] = case['fake_timeout']
+    tab = Tableau(None, None, **opts)
     rec = Rec(tab)
     direct = []
     effects = []
@@ -256,12 +266,19 @@ def run_case(case):
     prev = v
     # ---- steps -----------------------------------------------------------------
     limit = case.get('step_cap', 400)
+    timed_out = False
     while True:
         opens = list(tab.open)
         hlen = len(tab.history)
         cs0 = tab.current_step
         rec.events.clear()
-        entry = tab.step()
+        try:
+            entry = tab.step()
+        except Exception as e:  # noqa
+            if case.get('fake_timeout') and type(e).__name__ == 'ProofTimeoutError':
+                timed_out = True
+                break
+            raise
         if entry is None:
             break
         rule, target = entry.rule, entry.target
@@ -323,7 +340,9 @@ def run_case(case):
                result=tab.stats.get('result'), steps=len(tab.history), branches=len(tab))
     # ---- tree and stats ----------------------------------------------------------
     tree = tab.tree
-    if tree is None:
+    if timed_out and tree is None:
+        res['tree'] = None          # a tableau stopped by the time limit publishes no tree; its statistics still count
+    elif tree is None:
         bad('tree-paths', 'no tree after finish')
         res['tree'] = None
     else:
